@@ -1441,7 +1441,7 @@ def pm15_monotone(r, R):
                    "constructor defaults: standalone=%s count=%s text=%s" % (term_s(vals["standalone"]), term_s(vals["count"]), term_s(vals["text"])), s, "PM15|new")
                 # every attribute of a new element is Mandatory
                 a = vals["attributes"]
-                mand = False
+                mand = any(st[0] == "fn" and st[1].endswith("Necessity::Mandatory") for st in mir.subterms(a))
                 for st in mir.subterms(a):
                     if st[0] == "fn" or (st[0] == "agg" and st[1] in R.lib.bodies):
                         clo = R.lib.bodies.get(st[1])
